@@ -21,7 +21,7 @@ ACTIONS = ["SendReply", "SendChange", "Read", "JoinStep", "KeepStep"]
 def key_cache(m, obs):
     ex = m.get("explained_by") or []
     if ex:
-        return "%s:%s" % (m["what"], "+".join(sorted(ex)))
+        return "%s:%s" % ("+".join(sorted(ex)), m["what"])      # explained by a named deviation of the spec
     d = m.get("detail") if isinstance(m.get("detail"), dict) else {}
     # class of failing input: clause + property + cache mode (one replay file per class; the first failing history is kept)
     return "%s:%s:%s" % (m["what"], d.get("prop", ""), obs.get("mode"))
@@ -54,6 +54,18 @@ def run(pid, tier, replay):
     po.run_sharded(binary, "c31", cases_path, obs_path, procs=4 if quick else 8)
     cases = po.load_cases(cases_path)
     lines = validate(chk, pid, obs_path, cases, shards=8 if quick else 14)
+    # second family: PropertyChanged::get's refetch racing newer signals
+    cases2_path = chk.path("cases_refetch.ndjson")
+    g2, n2 = core.tlc_generate("gen/Gen_PropCacheRefetch.tla",
+                               "gen/Gen_PropCacheRefetch_quick.cfg" if quick else "gen/Gen_PropCacheRefetch_thorough.cfg",
+                               cases2_path, timeout=3000)
+    chk.add_tlc(g2)
+    obs2_path = chk.path("obs_refetch.ndjson")
+    po.run_sharded(binary, "c31", cases2_path, obs2_path, procs=1)
+    lines2 = validate(chk, pid, obs2_path, po.load_cases(cases2_path), shards=1 if quick else 4)
+    chk.add("refetch_cases", n2)
+    lines = lines + lines2
+    n += n2
     objs = [json.loads(x) for x in lines]
     chk.add("enumerated_cases", n)
     chk.cov["exhaustive"] = True
@@ -63,7 +75,8 @@ def run(pid, tier, replay):
     chk.cov["rule"] = ("cases = every arrival order of one GetAll reply (full; partial snapshot for the short ones) and <= N (3 quick, 4 thorough) "
                        "PropertiesChanged signals of 8 kinds (own/other interface, change/invalidate/both, cached/uncached property, stranger "
                        "sender, other object; position-dependent values) x CacheProperties::{Yes,Lazily} x schedule (client run after every "
-                       "message / once at the end / messages around the reply queued together); distinct by (mode, received history with "
+                       "message / once at the end / messages around the reply queued together), plus the refetch family (Get reply of "
+                       "PropertyChanged::get among <= 3/4 further signals, 2 schedules); distinct by (mode, received history with "
                        "quiescent points); non-trivial = at least one signal is received after the GetAll reply")
     chk.cov["cache_observations"] = sum(1 for o in objs for e in o.get("evs", []) if e["k"] == "obs")
     chk.cov["stream_items"] = sum(len(v) for o in objs for v in o.get("streams", {}).values())
